@@ -409,9 +409,10 @@ func scriptedHook(cfg dcfg) func(name string, req map[string]interface{}) vs.Hoo
 }
 
 type scenario struct {
-	Cfg dcfg
-	w   *world
-	key string
+	Cfg   dcfg
+	w     *world
+	key   string
+	tname string // name of the target; now and then one with a ':' in it (legal for RBAC kinds, and the queue key is ':'-separated)
 }
 
 func buildScenario(r *vs.Rand, cfg dcfg) *scenario {
@@ -469,7 +470,11 @@ func buildScenario(r *vs.Rand, cfg dcfg) *scenario {
 	case 1:
 		spec["setStatus"] = vs.M{}
 	}
-	md := vs.M{"name": "t1"}
+	sc.tname = "t1"
+	if r.Chance(12) {
+		sc.tname = "sys:t1"
+	}
+	md := vs.M{"name": sc.tname}
 	if ns != "" {
 		md["namespace"] = ns
 	}
@@ -507,9 +512,9 @@ func buildScenario(r *vs.Rand, cfg dcfg) *scenario {
 		target["status"] = vs.M{}
 	}
 	stored := w.sim.Put(p.group(), p.Resource, target)
-	sc.key = fmt.Sprintf("%s:%s:%s:%s", p.APIVersion, p.Kind, ns, "t1")
+	sc.key = fmt.Sprintf("%s:%s:%s:%s", p.APIVersion, p.Kind, ns, sc.tname)
 	owner := func(controller bool) vs.M {
-		return vs.M{"apiVersion": p.APIVersion, "kind": p.Kind, "name": "t1", "uid": str(stored, "metadata", "uid"), "controller": controller, "blockOwnerDeletion": true}
+		return vs.M{"apiVersion": p.APIVersion, "kind": p.Kind, "name": sc.tname, "uid": str(stored, "metadata", "uid"), "controller": controller, "blockOwnerDeletion": true}
 	}
 	for _, a := range cfg.Attachments {
 		mk := func(name, marker string, own interface{}, image string) vs.M {
